@@ -13,26 +13,26 @@
     `struct{Keys []string; Values map[string]V}`.  Go field names are identified with schema field names
     (the code maps `foo` to `Foo` by `strings.Title`; the harness generates exactly that).
   * `GoVal`: nil and non-nil slices, pointers and maps are different values; an ordered map is a key list plus an
-    association list (a Go map has no order: only lookups by key are ever made on it).
+    association list (a Go map has no order: only lookups by key are ever made on it).  `nilBare` is the nil of a bare
+    nilable Go type (slice, []byte, interface) in a slot where nil stands for absent / null; `nilSlice` is the nil
+    slice in a slot where it is an empty list.
   * `compatible g t nul`: the Go type bound to schema type `t` in a value slot that is nullable iff `nul`; struct
     fields through `fslot`.  The slot shapes are the ones `verifyCompatibility` accepts AND the node code serves:
-      - a nullable slot is a pointer to a non-pointer type; optional and nullable is the double pointer; a union
-        member is a pointer;
-      - a slot that is NOT nullable (struct field, list element, map value, the value behind an optional field's or a
-        union member's pointer) is the type itself or ONE pointer to it (`verifyCompatibility` strips one pointer from
-        every type it is handed; the node keeps the pointer and reads through `nonPtrVal`, the assembler allocates in
-        `createNonPtrVal`; a nil pointer there is not a value of the type);
-      - an optional field that is not nullable, or a nullable field that is not optional, may be bound to a bare
-        nilable Go type (`ptrOrNilable`: slice, []byte, `datamodel.Link`, `datamodel.Node`): nil is absent / null.
-    Accepted by `verifyCompatibility` but NOT served by the node code, hence outside `compatible` (known findings /
-    probes, see known_findings.json): a nullable list element or map value bound to a bare slice (reading a non-nil
-    one panics: `C19/nullable-element-bare-slice-read-panics`), a nullable-only field bound to a double pointer
-    (the assembler panics: `C19/nullable-double-pointer-build-panics`).  The REPRESENTATION level (repr.go) does not
-    dereference the pointer of a non-nullable slot at all (`C19/plain-pointer-slot-representation-not-dereferenced`):
-    that is the business of Marshal, not of `view` / `assign`.
+      - a nullable slot is a pointer, or a bare nilable Go type (`ptrOrNilable`: slice, []byte, `datamodel.Link`,
+        `datamodel.Node`) whose nil is null - as a struct field, a list element or a map value alike; an optional
+        field is a pointer to the slot of its value (so optional and nullable is the double pointer), or, if not
+        nullable, a bare nilable type whose nil is absent; a union member is a pointer;
+      - EVERY value slot may carry ONE pointer more than it needs (`verifyCompatibility` strips one pointer from every
+        type it is handed; the node keeps the pointer and reads through `nonPtrVal`, the assembler allocates through
+        every level in `createNonPtrVal`): `*T` for a slot that is not nullable (a nil pointer there is not a value of
+        the type), `**T` for a nullable one (nil at the outer level is null; a pointer to a nil pointer is not a value
+        of the type), hence `***T` for an optional nullable field.  No more than one.
+    The REPRESENTATION level (repr.go) is the business of Marshal, not of `view` / `assign`; one corner of it still
+    does not dereference the extra pointer (a kinded / stringprefix union member field `**T`:
+    `C19/union-member-double-pointer-representation-not-dereferenced` in known_findings.json).
   * `view g t nul gv`: reading the wrapped value through the node API, in full (node.go `_node`, the iterators):
     nil pointer in an optional field ↦ absent, nil pointer in a nullable slot ↦ null (nil of the bare nilable type
-    likewise, in a struct field bound to it), nil slice ↦ empty list,
+    likewise), nil slice ↦ empty list (where the slot is not a nilable one),
     ordered map ↦ the entries in `Keys` order looked up in `Values`, union ↦ the single-entry map keyed by the
     member TYPE name of the first non-nil field, unsigned and narrow ints ↦ their value, an int-represented enum
     held in a Go integer ↦ the name of the first member with that representation int.  `none`: the read fails
@@ -43,22 +43,27 @@
   * `assign g t tl`: the Go value behind the node that the type-level builder builds from the typed value `tl`
     (struct entries in any order, unset optional fields left out or explicit - `Schema.conforms` - the built node
     is `Schema.normalize t tl`, C08/C09), `none` if the builder refuses.  Fresh pointers for present optional /
-    nullable values (and for a present value in a non-nullable slot that is a pointer), nil for absent / null, a
-    slice is nil unless something was appended (`reflect.Append` onto the zero value - so an EMPTY list assembled into
-    an optional / nullable field bound to a bare slice leaves it nil, i.e. absent / null: known finding
-    `C19/nilable-slot-empty-list-becomes-absent`, `nilableSlotEmptyList`), `Keys` likewise, `Values` is always made (`reflect.MakeMap` in `BeginMap`), exactly the selected
-    union field is set.  Integers: `AssignInt` / `assignUInt` refuse what does not fit the field (`Bind.fits`,
-    C19 `width_guard`); an int-represented enum held in a Go integer stores the member's representation int, and
-    refuses one the Go kind cannot hold (`OverflowInt` / `OverflowUint`, negative into unsigned): `enumStore`.
-  * `GoVal.norm`: the normalisations Unwrap∘build applies to a Go value: empty slice ↦ nil slice, empty `Keys` ↦
-    nil, `Values` non-nil and holding exactly the keys listed (in the model: in `Keys` order).
+    nullable values (and for a present value behind any extra pointer), nil for absent / null; a list that has been
+    begun is a NON-NIL slice in every slot (`BeginList` makes the empty slice), assembled bytes are a non-nil
+    `[]byte`; `Keys` is nil unless something was appended, `Values` is always made (`reflect.MakeMap` in `BeginMap`),
+    exactly the selected union field is set.  Integers: `AssignInt` / `assignUInt` refuse what does not fit the field
+    (`Bind.fits`, C19 `width_guard`); an int-represented enum held in a Go integer stores the member's representation
+    int, and refuses one the Go kind cannot hold (`OverflowInt` / `OverflowUint`, negative into unsigned):
+    `enumStore`.
+  * `GoVal.norm`: the normalisations Unwrap∘build applies to a Go value: nil slice (an empty list) ↦ the non-nil
+    empty slice, empty `Keys` ↦ nil, `Values` non-nil and holding exactly the keys listed (in the model: in `Keys`
+    order).
   * `wt g t nul gv`: `gv` is a Go value of type `g` and an inhabitant of `t`: integers within their kind,
     enum strings / ints that name a member, exactly one union field set, `Keys` without repetition and in step with
     `Values`, a `Node` holding a non-null value without repeated keys.
 
   History: until library commits f5ad5bb and 7093040 a Go `uint` above MaxInt64 could not be read and an enum
   representation int was stored without a width check (truncating); the model then carried `IntKind.readable`, a
-  `strict` flag of `wt`, and the side conditions `enumsFit` / `noUint` of the theorems.  All gone with the repairs.
+  `strict` flag of `wt`, and the side conditions `enumsFit` / `noUint` of the theorems.  Until the five bindnode
+  repairs of the following round an empty list / empty bytes assembled into a bare nilable slot left it nil (absent /
+  null; the model carried `emptyIntoSlice` and the side condition `nilableSlotEmptyList`), a nullable element bound to
+  a bare slice could not be read and `**T` could not be built (both outside `compatible` then), and the representation
+  node did not dereference the pointer of a plain slot.  All gone with the repairs.
 -/
 import IpldModel.Model.Schema
 import IpldModel.Model.Bind
@@ -133,8 +138,10 @@ inductive GoVal where
   | slice (xs : GoVals)
   | nilPtr
   | ptr (v : GoVal)
-  /-- a nil `datamodel.Link` / `datamodel.Node` interface value -/
-  | nilIface
+  /-- the nil of a bare nilable Go type (slice, []byte, `datamodel.Link`, `datamodel.Node`) in a slot where nil stands
+      for absent / null: an optional struct field, or a nullable field / list element / map value, bound to that type
+      without a pointer.  (`.nilSlice` is a nil slice anywhere else: an empty list.) -/
+  | nilBare
   | struct (fs : GoVals)
   /-- `keys = none`: `Keys == nil`; `valsNil`: `Values == nil` (then `vals` is empty) -/
   | omap (keys : Option (List Bytes)) (valsNil : Bool) (vals : GoKVs)
@@ -180,28 +187,24 @@ def notPtr : GoTy → Bool
   | .ptr _ => false
   | _ => true
 
-/-- The nil value of a Go type that is nilable WITHOUT a pointer (`ptrOrNilable`: slice, interface): what an
-    optional / nullable struct field bound to the bare type holds when it is absent / null.  (`.nilSlice` also stands
-    for a nil `[]byte` here.) -/
-def bareNil : GoTy → Option GoVal
-  | .slice _ => some .nilSlice
-  | .bytes => some .nilSlice
-  | .link .iface => some .nilIface
-  | .node => some .nilIface
-  | _ => none
+/-- A Go type that is nilable WITHOUT a pointer (`ptrOrNilable`: slice, interface): an optional field, or a nullable
+    field / list element / map value, may be bound to it directly, nil (`GoVal.nilBare`) standing for absent / null. -/
+def isBare : GoTy → Bool
+  | .slice _ => true
+  | .bytes => true
+  | .link .iface => true
+  | .node => true
+  | _ => false
 
-def isBare (g : GoTy) : Bool := (bareNil g).isSome
-
-/-- How a struct field of Go type `g` carries "optional" / "nullable" (`verifyCompatibility`'s struct case and the
-    struct iterator / `LookupByString` / `AssembleValue`):
-    `value`   - not optional: `g` is a value slot, nullable iff the field is (a pointer when nullable; possibly a
-                pointer when not: `verifyCompatibility` strips one pointer from every type it is handed);
-    `optPtr`  - optional behind a pointer `*g1`; `g1` is the value slot (nullable iff the field is: the double pointer);
+/-- How a struct field of Go type `g` carries "optional" (`verifyCompatibility`'s struct case and the struct iterator
+    / `LookupByString` / `AssembleValue`):
+    `value`   - not optional: `g` is a value slot, nullable iff the field is;
+    `optPtr`  - optional behind a pointer `*g1`; `g1` is the value slot, nullable iff the field is (then a pointer
+                itself: "optional and nullable fields must use double pointers");
     `optBare` - optional, not nullable, bound to a bare nilable type: nil is absent;
-    `nulBare` - nullable, not optional, bound to a bare nilable type: nil is null;
     `bad`     - an optional field that is neither (`verifyCompatibility` panics). -/
 inductive FSlot where
-  | value | optPtr (g1 : GoTy) | optBare | nulBare | bad
+  | value | optPtr (g1 : GoTy) | optBare | bad
   deriving DecidableEq, Repr, Inhabited
 
 def ptrElem : GoTy → Option GoTy
@@ -213,25 +216,25 @@ def fslot (g : GoTy) (opt nul : Bool) : FSlot :=
   | true, some g1, _, _ => .optPtr g1
   | true, none, false, true => .optBare
   | true, none, _, _ => .bad
-  | false, _, true, true => .nulBare
   | false, _, _, _ => .value
 
 /-! ## Compatibility -/
 
 mutual
 /-- The Go type `g` is bound to schema type `t` in a value slot that is nullable iff `nul` (a list element, a map
-    value, a union member behind its pointer, a struct field after `fslot`).  A nullable value slot is a pointer to a
-    non-pointer type; a slot that is not nullable is the type itself or ONE pointer to it. -/
+    value, a union member behind its pointer, a struct field after `fslot`).  A nullable slot is a pointer, or a bare
+    nilable type; and every slot may have ONE pointer more than it needs (`verifyCompatibility` strips one pointer from
+    every type it is handed): `*T` where `T` would do, `**T` for nullable. -/
 def compatible : GoTy → Ty → Bool → Bool
-  | .ptr g, t, _ => notPtr g && compatible g t false
+  | .ptr g, t, nul => (nul || notPtr g) && compatible g t false
   | .bool, t, nul => !nul && (match t with | .bool => true | _ => false)
   | .int _, t, nul => !nul && (match t with | .int => true | .enum _ .int => true | _ => false)
   | .float, t, nul => !nul && (match t with | .float => true | _ => false)
   | .str, t, nul => !nul && (match t with | .str => true | .enum _ _ => true | _ => false)
-  | .bytes, t, nul => !nul && (match t with | .bytes => true | _ => false)
-  | .link _, t, nul => !nul && (match t with | .link => true | _ => false)
-  | .node, t, nul => !nul && (match t with | .any => true | _ => false)
-  | .slice ge, t, nul => !nul && (match t with | .list et enul => compatible ge et enul | _ => false)
+  | .bytes, t, _ => (match t with | .bytes => true | _ => false)
+  | .link f, t, nul => (!nul || f == .iface) && (match t with | .link => true | _ => false)
+  | .node, t, _ => (match t with | .any => true | _ => false)
+  | .slice ge, t, _ => (match t with | .list et enul => compatible ge et enul | _ => false)
   | .omap gv, t, nul => !nul && (match t with | .map vt vnul => compatible gv vt vnul | _ => false)
   | .struct gfs, t, nul =>
     !nul && (match t with
@@ -246,9 +249,8 @@ def compatFields : GoFields → List Field → Bool
     && (if f.opt then
           (if isBare g then !f.nullable && compatible g f.ty false
            else match g with
-             | .ptr g1 => compatible g1 f.ty f.nullable
+             | .ptr g1 => (!f.nullable || !notPtr g1) && compatible g1 f.ty f.nullable
              | _ => false)
-        else if f.nullable && isBare g then compatible g f.ty false
         else compatible g f.ty f.nullable)
     && compatFields rest fs
   | _, _ => false
@@ -277,7 +279,7 @@ mutual
 def view : GoTy → Ty → Bool → GoVal → Option TL
   | g, _, nul, .nilPtr => if nul then (match g with | .ptr _ => some .null | _ => none) else none
   | g, t, _, .ptr v => (match g with | .ptr g1 => view g1 t false v | _ => none)
-  | _, _, _, .nilIface => none
+  | g, _, nul, .nilBare => if nul && isBare g then some .null else none
   | g, t, nul, .bool b => if nul then none else match g, t with
     | .bool, .bool => some (.bool b)
     | _, _ => none
@@ -292,19 +294,19 @@ def view : GoTy → Ty → Bool → GoVal → Option TL
     | .str, .str => some (.str s)
     | .str, .enum _ _ => some (.str s)
     | _, _ => none
-  | g, t, nul, .bytes b => if nul then none else match g, t with
+  | g, t, nul, .bytes b => if nul && !isBare g then none else match g, t with
     | .bytes, .bytes => some (.bytes b)
     | _, _ => none
-  | g, t, nul, .link c => if nul then none else match g, t with
+  | g, t, nul, .link c => if nul && !isBare g then none else match g, t with
     | .link _, .link => some (.link c)
     | _, _ => none
-  | g, t, nul, .node d => if nul then none else match g, t with
+  | g, t, nul, .node d => if nul && !isBare g then none else match g, t with
     | .node, .any => some (TL.ofDM d)
     | _, _ => none
   | g, t, nul, .nilSlice => if nul then none else match g, t with
     | .slice _, .list _ _ => some (.list .nil)
     | _, _ => none
-  | g, t, nul, .slice xs => if nul then none else match g, t with
+  | g, t, nul, .slice xs => if nul && !isBare g then none else match g, t with
     | .slice ge, .list et enul => (viewList ge et enul xs).map .list
     | _, _ => none
   | g, t, nul, .struct vs => if nul then none else match g, t with
@@ -332,8 +334,7 @@ def viewFields : GoFields → List Field → GoVals → Option TLKVs
       (match fslot g f.opt f.nullable with
        | .value => view g f.ty f.nullable .nilPtr
        | .optPtr _ => some TL.absent
-       | .optBare => if bareNil g = some .nilPtr then some TL.absent else view g f.ty false .nilPtr
-       | .nulBare => if bareNil g = some .nilPtr then some TL.null else view g f.ty false .nilPtr
+       | .optBare => view g f.ty false .nilPtr
        | .bad => none)
       (viewFields gfs fs xs)
   | .cons _ g gfs, f :: fs, .cons (.ptr v) xs =>
@@ -341,8 +342,7 @@ def viewFields : GoFields → List Field → GoVals → Option TLKVs
       (match fslot g f.opt f.nullable with
        | .value => view g f.ty f.nullable (.ptr v)
        | .optPtr g1 => view g1 f.ty f.nullable v
-       | .optBare => if bareNil g = some (.ptr v) then some TL.absent else view g f.ty false (.ptr v)
-       | .nulBare => if bareNil g = some (.ptr v) then some TL.null else view g f.ty false (.ptr v)
+       | .optBare => view g f.ty false (.ptr v)
        | .bad => none)
       (viewFields gfs fs xs)
   | .cons _ g gfs, f :: fs, .cons x xs =>
@@ -350,8 +350,7 @@ def viewFields : GoFields → List Field → GoVals → Option TLKVs
       (match fslot g f.opt f.nullable with
        | .value => view g f.ty f.nullable x
        | .optPtr _ => none
-       | .optBare => if bareNil g = some x then some TL.absent else view g f.ty false x
-       | .nulBare => if bareNil g = some x then some TL.null else view g f.ty false x
+       | .optBare => if x = .nilBare then some TL.absent else view g f.ty false x
        | .bad => none)
       (viewFields gfs fs xs)
   | _, _, _ => none
@@ -370,16 +369,23 @@ end
 
 /-! ## build + Unwrap -/
 
-/-- the type behind the pointer of a value slot, if there is one (a nullable slot has one) -/
+/-- the type behind the pointers of a value slot (one, or two with the extra one); a nullable slot without pointer is a
+    bare nilable type -/
 def unptr (nul : Bool) (g : GoTy) : Option GoTy :=
   match g with
-  | .ptr g1 => some g1
-  | g => if nul then none else some g
+  | .ptr g1 =>
+    (match g1 with
+     | .ptr b => some b
+     | b => some b)
+  | b => if nul && !isBare b then none else some b
 
-/-- a fresh pointer where the slot is one (`createNonPtrVal`) -/
+/-- fresh pointers where the slot has them (`createNonPtrVal` allocates through every level) -/
 def wrapFor (g : GoTy) (v : GoVal) : GoVal :=
   match g with
-  | .ptr _ => .ptr v
+  | .ptr g1 =>
+    (match g1 with
+     | .ptr _ => .ptr (.ptr v)
+     | _ => .ptr v)
   | _ => v
 
 /-- the union struct with field `i` of `n` set -/
@@ -397,12 +403,6 @@ def unionVals : Nat → Nat → GoVal → GoVals
 def enumStore (k : IntKind) (rint : Int) : Option Int :=
   if Bind.fits k.width rint then some rint else none
 
-/-- a slice after appending the elements one by one to the zero value: nil unless something was appended -/
-def sliceOf (ys : GoVals) : GoVal :=
-  match ys with
-  | .nil => .nilSlice
-  | .cons _ _ => .slice ys
-
 /-- `Keys` after assembling the entries: nil unless something was appended -/
 def keysOf (es : TLKVs) : Option (List Bytes) :=
   match es with
@@ -413,7 +413,7 @@ mutual
 /-- The Go value behind the built node that reads as the canonical typed value (`Schema.normalize`d). -/
 def assignC (g : GoTy) (t : Ty) (nul : Bool) : TL → Option GoVal
   | .absent => none
-  | .null => if nul then (match g with | .ptr _ => some .nilPtr | _ => none) else none
+  | .null => if nul then (match g with | .ptr _ => some .nilPtr | b => if isBare b then some .nilBare else none) else none
   | .bool b => Option.map (wrapFor g) (match unptr nul g, t with
     | some .bool, .bool => some (.bool b)
     | some .node, .any => some (.node (.bool b))
@@ -444,7 +444,7 @@ def assignC (g : GoTy) (t : Ty) (nul : Bool) : TL → Option GoVal
     | some .node, .any => some (.node (.link c))
     | _, _ => none)
   | .list xs => Option.map (wrapFor g) (match unptr nul g, t with
-    | some (.slice ge), .list et enul => (assignList ge et enul xs).map sliceOf
+    | some (.slice ge), .list et enul => (assignList ge et enul xs).map GoVal.slice
     | some .node, .any => (TL.toDM? (.list xs)).map GoVal.node
     | _, _ => none)
   | .map es => Option.map (wrapFor g) (match unptr nul g, t with
@@ -477,8 +477,7 @@ def assignFields : GoFields → List Field → TLKVs → Option GoVals
       (match fslot g f.opt f.nullable with
        | .value => assignC g f.ty f.nullable v
        | .optPtr g1 => if v = .absent then some GoVal.nilPtr else (assignC g1 f.ty f.nullable v).map GoVal.ptr
-       | .optBare => if v = .absent then bareNil g else assignC g f.ty false v
-       | .nulBare => if v = .null then bareNil g else assignC g f.ty false v
+       | .optBare => if v = .absent then some GoVal.nilBare else assignC g f.ty false v
        | .bad => none)
       (assignFields gfs fs es)
   | _, _, _ => none
@@ -493,9 +492,8 @@ def assign (g : GoTy) (t : Ty) (tl : TL) : Option GoVal :=
 
 mutual
 def GoVal.norm : GoVal → GoVal
-  | .slice xs => match xs with
-    | .nil => .nilSlice
-    | .cons x r => .slice (.cons x.norm r.norm)
+  | .nilSlice => .slice .nil
+  | .slice xs => .slice xs.norm
   | .ptr v => .ptr v.norm
   | .struct vs => .struct vs.norm
   | .omap keys _ vals =>
@@ -525,7 +523,7 @@ mutual
 def wt : GoTy → Ty → Bool → GoVal → Bool
   | g, _, nul, .nilPtr => nul && (match g with | .ptr _ => true | _ => false)
   | g, t, _, .ptr v => (match g with | .ptr g1 => wt g1 t false v | _ => false)
-  | _, _, _, .nilIface => false
+  | g, _, nul, .nilBare => nul && isBare g
   | g, t, nul, .bool _ => !nul && (match g, t with | .bool, .bool => true | _, _ => false)
   | g, t, nul, .int i => !nul && (match g, t with
     | .int k, .int => Bind.fits k.width i
@@ -536,13 +534,13 @@ def wt : GoTy → Ty → Bool → GoVal → Bool
     | .str, .str => true
     | .str, .enum ms _ => ms.any (fun m => m.name == s)
     | _, _ => false)
-  | g, t, nul, .bytes _ => !nul && (match g, t with | .bytes, .bytes => true | _, _ => false)
-  | g, t, nul, .link _ => !nul && (match g, t with | .link _, .link => true | _, _ => false)
-  | g, t, nul, .node d => !nul && (match g, t with
+  | g, t, nul, .bytes _ => (!nul || isBare g) && (match g, t with | .bytes, .bytes => true | _, _ => false)
+  | g, t, nul, .link _ => (!nul || isBare g) && (match g, t with | .link _, .link => true | _, _ => false)
+  | g, t, nul, .node d => (!nul || isBare g) && (match g, t with
     | .node, .any => conforms .any false (TL.ofDM d)
     | _, _ => false)
   | g, t, nul, .nilSlice => !nul && (match g, t with | .slice _, .list _ _ => true | _, _ => false)
-  | g, t, nul, .slice xs => !nul && (match g, t with
+  | g, t, nul, .slice xs => (!nul || isBare g) && (match g, t with
     | .slice ge, .list et enul => wtList ge et enul xs
     | _, _ => false)
   | g, t, nul, .struct vs => !nul && (match g, t with
@@ -568,24 +566,21 @@ def wtFields : GoFields → List Field → GoVals → Bool
     (match fslot g f.opt f.nullable with
      | .value => wt g f.ty f.nullable .nilPtr
      | .optPtr _ => true
-     | .optBare => bareNil g = some .nilPtr || wt g f.ty false .nilPtr
-     | .nulBare => bareNil g = some .nilPtr || wt g f.ty false .nilPtr
+     | .optBare => wt g f.ty false .nilPtr
      | .bad => false)
     && wtFields gfs fs xs
   | .cons _ g gfs, f :: fs, .cons (.ptr v) xs =>
     (match fslot g f.opt f.nullable with
      | .value => wt g f.ty f.nullable (.ptr v)
      | .optPtr g1 => wt g1 f.ty f.nullable v
-     | .optBare => bareNil g = some (.ptr v) || wt g f.ty false (.ptr v)
-     | .nulBare => bareNil g = some (.ptr v) || wt g f.ty false (.ptr v)
+     | .optBare => wt g f.ty false (.ptr v)
      | .bad => false)
     && wtFields gfs fs xs
   | .cons _ g gfs, f :: fs, .cons x xs =>
     (match fslot g f.opt f.nullable with
      | .value => wt g f.ty f.nullable x
      | .optPtr _ => false
-     | .optBare => bareNil g = some x || wt g f.ty false x
-     | .nulBare => bareNil g = some x || wt g f.ty false x
+     | .optBare => x = .nilBare || (decide (x ≠ .nilSlice) && wt g f.ty false x)
      | .bad => false)
     && wtFields gfs fs xs
   | _, _, _ => false
@@ -644,57 +639,8 @@ def intsFitFields : GoFields → List Field → TLKVs → Bool
      | .value => intsFit g f.ty f.nullable v
      | .optPtr g1 => intsFit g1 f.ty f.nullable v
      | .optBare => intsFit g f.ty false v
-     | .nulBare => intsFit g f.ty false v
      | .bad => true) && intsFitFields gfs fs es
   | _, _, _ => true
-end
-
-/-! ## Side condition of `view_assign`: known finding `C19/nilable-slot-empty-list-becomes-absent` -/
-
-/-- an empty list is assembled into a Go slice -/
-def emptyIntoSlice (g : GoTy) (v : TL) : Bool :=
-  match g with
-  | .slice _ => decide (v = .list .nil)
-  | _ => false
-
-mutual
-/-- Somewhere in the canonical typed value an EMPTY LIST is assembled into an optional or nullable struct field that
-    is bound to a bare Go slice: the list assembler only appends to the zero value, the slice stays nil, and nil in
-    such a field reads as absent (optional) / null (nullable). -/
-def nilableSlotEmptyList (g : GoTy) (t : Ty) (nul : Bool) : TL → Bool
-  | .list xs => (match unptr nul g, t with
-    | some (.slice ge), .list et enul => nilableSlotEmptyListL ge et enul xs
-    | _, _ => false)
-  | .map es => (match unptr nul g, t with
-    | some (.omap gv), .map vt vnul => nilableSlotEmptyListM gv vt vnul es
-    | some (.struct gfs), .struct fs _ => nilableSlotEmptyListF gfs fs.toList es
-    | some (.struct gfs), .union ms _ =>
-      (match es with
-       | .cons k v .nil =>
-         (match findIdx (fun m => m.name == k) ms.toList with
-          | some (i, m) =>
-            (match gfs.get? i with
-             | some (.ptr g1) => nilableSlotEmptyList g1 m.ty false v
-             | _ => false)
-          | none => false)
-       | _ => false)
-    | _, _ => false)
-  | _ => false
-def nilableSlotEmptyListL (g : GoTy) (t : Ty) (nul : Bool) : TLs → Bool
-  | .nil => false
-  | .cons x xs => nilableSlotEmptyList g t nul x || nilableSlotEmptyListL g t nul xs
-def nilableSlotEmptyListM (g : GoTy) (t : Ty) (nul : Bool) : TLKVs → Bool
-  | .nil => false
-  | .cons _ x es => nilableSlotEmptyList g t nul x || nilableSlotEmptyListM g t nul es
-def nilableSlotEmptyListF : GoFields → List Field → TLKVs → Bool
-  | .cons _ g gfs, f :: fs, .cons _ v es =>
-    (match fslot g f.opt f.nullable with
-     | .value => nilableSlotEmptyList g f.ty f.nullable v
-     | .optPtr g1 => nilableSlotEmptyList g1 f.ty f.nullable v
-     | .optBare => emptyIntoSlice g v || nilableSlotEmptyList g f.ty false v
-     | .nulBare => emptyIntoSlice g v || nilableSlotEmptyList g f.ty false v
-     | .bad => false) || nilableSlotEmptyListF gfs fs es
-  | _, _, _ => false
 end
 
 end GoBind
